@@ -12,24 +12,36 @@ SUNWSyminfoTableSection / ELFHashSection / GNUHashSection observations; model =
 extracted Model/C03*.v on the same image; spec = extracted Spec/C03*.v expectations."""
 import io, random, struct
 
-CLAIMED = False
+CLAIMED = True
 CONFIG = {'assumptions': [
     'names are compared as UTF-8 bytes; generated names are valid UTF-8 without NUL (the errors=replace path is outside the property)',
     'enum-valued fields (bind, type, visibility, shndx, si_boundto) are compared as integers: the names the library prints are '
-    'translated back through the standard tables of Spec/C03Sym.v, which Props/C03.v proves equal to the tables regenerated from the live code',
+    'translated back through the standard tables of Spec/C03Sym.v, which Props/C03.v (C03_sym_enum_tables) proves equivalent to the '
+    'tables regenerated from the live code',
     'hash lookups are compared at the level the property states: a returned symbol must be an entry of the hashed part of the '
     'table bearing the queried name; which of several equally named symbols is returned is not constrained',
-    'the ELF header and section headers of the synthesized image are written by the harness (they are C01 subject matter)']}
-LEVEL = {'text': 'Machine-checked: symbol tables of any length/entry size decode to exactly the encoded entries in order (every '
-                 'field, names through the linked string table, extended indices from the SHNDX table, syminfo), lookup by name '
-                 'returns exactly the indices bearing the name; the code\'s SysV and GNU hash functions equal the standard '
-                 'recurrences on all byte strings; SysV and GNU hash lookups are complete and sound and both symbol counts exact '
-                 'for ALL tables satisfying the boolean well-formedness predicates (no builder is trusted), for unbounded sizes. '
-                 'The models are line-by-line transliterations pinned to the code by differential correspondence on synthesized '
-                 'ELF images with adversarial hash parameters.',
+    'the hashed part of a SysV table is indices 1..n-1 (index 0 is STN_UNDEF, the chain terminator), of a GNU table symoffset..n-1',
+    'the ELF header and section headers of the synthesized image are written by the harness (they are C01 subject matter); '
+    'linked-section type validation (elffile.py _get_linked_*) is exercised by opening the image but has no theorem here']}
+LEVEL = {'text': 'Machine-checked (31 theorems, no axioms), all for unbounded sizes and BOTH classes/byte orders: a symbol table of any '
+                 'length and any sh_entsize >= the standard entry, placed anywhere in any image with its string table placed anywhere, '
+                 'is enumerated to exactly the encoded entries in index order (every field; names through the string table), '
+                 'get_symbol(i) and num_symbols are exact, get_symbol_by_name returns exactly the symbols bearing the name in order or '
+                 'None; SHT_SYMTAB_SHNDX entry i and the Solaris syminfo enumeration are exact; the code\'s elf_hash and gnu_hash equal '
+                 'the standard 32-bit recurrences on every input; for ALL tables satisfying the boolean predicates wf_sysv_hash / '
+                 'wf_gnu_hash (no builder is trusted) SysV and GNU lookups are sound (a returned symbol bears the name and lies in the '
+                 'hashed part), complete (a present name is found) and return None without error for every absent name (bucket, '
+                 'full-hash and bloom collisions, chain ending at end of file), and both symbol counts are exact - proved both for an '
+                 'abstract symbol source and for the section classes over a file image (header round trip of Elf_Hash/Gnu_Hash '
+                 'included). Layouts and enum tables regenerated from the live code are proved equal to the gABI ones. The hand models '
+                 '(loops, dict building, cursor handling) are tied to the code by differential correspondence on synthesized ELF '
+                 'images with adversarial hash parameters; every generated table is certified in-domain by the extracted wf predicates.',
          'design_ref': '4.3', 'technique': 'Coq proof (generic layout round trip, chain/group induction, bit arithmetic) + extracted-model correspondence',
-         'note': 'Trusted: Coq kernel, ExtrOcamlBasic extraction, harness image assembly. No axioms. Two genuine defects found and '
-                 'repaired (elf_hash wider than 32 bits; GNU chain walk reading from the shared stream cursor).'}
+         'note': 'Trusted: Coq kernel, ExtrOcamlBasic extraction, harness image assembly and the tie model<->code (correspondence, not '
+                 'proof). No axioms, nothing _partial. Two genuine defects found and repaired in /repo: eb363f2 (elf_hash wider than '
+                 '32 bits) and 3e042b2 (GNU chain walk read from the shared stream cursor; also gave struct.error for some absent names). '
+                 'Not covered by a theorem: _get_linked_symtab_section/_get_linked_strtab_section type validation, DynamicSegment as '
+                 'symbol source (the abstract-source theorems apply to any object answering get_symbol).'}
 
 RULE = ('cases: (a) hash functions on byte strings (random ASCII/UTF-8/raw bytes, engineered 32-bit-overflow and collision '
         'families); (b) symbol-table scenarios: 0..2000 symbols (quick: mostly 0..12, some up to 200, a few up to 2000), '
@@ -261,9 +273,10 @@ def gen(ctx):
     # ---- (b,c,d) table scenarios
     sizes = [0, 0, 1, 1, 2, 2, 2, 3, 3] + [rng.randint(0, 12) for _ in range(90 * T)] + \
             [rng.randint(13, 120) for _ in range(8 * T)]
-    # large tables: quick = one of 400..700 symbols for every kind and one of 2000 for the symbol table only
+    # large tables: quick = one of 400..700 symbols for every kind and one of 1200 for the symbol table only
+    # (the extracted model is quadratic in the file size: 2000 symbols cost ~45 s); thorough = up to 2000 for every kind
     bigs = [rng.randint(400, 700)] + ([rng.randint(500, 2000) for _ in range(6)] + [2000] if T > 1 else [])
-    only_symtab = [] if T > 1 else [2000]
+    only_symtab = [] if T > 1 else [1200]
     for n in sizes + bigs + only_symtab:
         big = n > 200
         common, names, queries = _scenario(rng, n, big)
@@ -474,7 +487,13 @@ def _eval_hashfn(ctx, cases):
             key = 'gnu-hash-function'
         ctx.bump('kind', kind)
         ctx.bump('hashfn_len', min(len(nm), 40))
-        ctx.record(kind, a, impl=impl, spec=list(s), model=list(m[:2]), in_domain=True, nontrivial=len(nm) >= 2, key=key)
+        # model = the functions TRANSLATED from the live source (Gen/PyFuns.v: gen_elf_hash, gen_gnu_hash), so the
+        # correspondence pins the translator; the hand models (m[0], m[1]) are proved equal to them (C03_gen_hash_models)
+        model = list(m[3:5])
+        if key is None and list(m[:2]) != model:
+            key = 'hand-model-differs-from-translated-hash-function'
+            model = list(m[:2])
+        ctx.record(kind, a, impl=impl, spec=list(s), model=model, in_domain=True, nontrivial=len(nm) >= 2, key=key)
 
 
 def _eval_table(ctx, kind, a, ENUMS):
